@@ -16,7 +16,7 @@ import hashlib
 
 import numpy as np
 
-from dst import kernel, seams, refmodel
+from dst import kernel, seams, refmodel, runner
 from dst.kernel import Sim, HarnessError, stream, canon, digest, H
 
 PROP = 'C06'
@@ -38,7 +38,14 @@ CONFIGS = [
     ('XCubeCode', [2, 2, 2], None, ['XCubeMatchingDecoder', 'BPOSD']),
     ('Color666ToricCode', [2, 2], None, ['BPOSD']),
     ('Toric2DCode', [3, 3], None, ['MBP']),
+    # randomised sweep-match decoders: judged by validity, not by equality
+    ('Toric3DCode', [2, 2, 2], None, ['SweepMatch', 'BPOSD']),
+    ('Toric3DCode', [3, 3, 3], None, ['SweepMatch']),
+    ('Toric3DCode', [2, 3, 2], None, ['SweepMatch', 'SweepMatch']),
+    ('RotatedPlanar3DCode', [2, 2, 2], None, ['RotatedSweepMatch']),
+    ('RotatedPlanar3DCode', [3, 3, 2], None, ['RotatedSweepMatch', 'BPOSD']),
 ]
+RANDOMISED = ('SweepMatch', 'RotatedSweepMatch')
 NOISES = [
     {'r_x': 1/3, 'r_y': 1/3, 'r_z': 1/3},
     {'r_x': 0.0, 'r_y': 0.0, 'r_z': 1.0},
@@ -57,6 +64,8 @@ DEC = {
     'BPOSD_cu': ('BeliefPropagationOSDDecoder',
                  {'max_bp_iter': 8, 'osd_order': 0, 'channel_update': True}),
     'MBP': ('MemoryBeliefPropagationDecoder', {'max_bp_iter': 3}),
+    'SweepMatch': ('SweepMatchDecoder', {}),
+    'RotatedSweepMatch': ('RotatedSweepMatchDecoder', {'max_rounds': 4}),
 }
 
 
@@ -121,11 +130,34 @@ def outcome_of(fn):
     return ('ok', a.shape, [int(v) for v in a.ravel()])
 
 
-def syndrome_of(code, pauli):
-    """Syndrome of a Pauli string, as the array type measure_syndrome
-    returns (what run_once hands to decoders)."""
+def syndrome_of(code, pauli, dtype='native'):
+    """Syndrome of a Pauli string: as the array type measure_syndrome
+    returns (what run_once hands to decoders), or as the int64 array a user
+    gets from H @ e % 2, from JSON, or from .astype(int)."""
     from panqec.bpauli import pauli_to_bsf
-    return code.measure_syndrome(pauli_to_bsf(pauli))
+    s = code.measure_syndrome(pauli_to_bsf(pauli))
+    if dtype == 'int64':
+        s = np.array(s, dtype=np.int64)
+    return s
+
+
+def valid_randomised(code, rc, syndrome, got):
+    """Validity predicate for the randomised sweep-match decoders: binary,
+    length 2n, and the vertex (Z-type) sector of the syndrome is reproduced
+    by the correction (that part is decoded by complete matching)."""
+    if got[0] != 'ok':
+        return 'raised ' + got[1]
+    shape, vals = got[1], got[2]
+    n = rc.n
+    if tuple(shape) != (2 * n,) or not set(vals) <= {0, 1}:
+        return 'not a binary vector of length 2n'
+    c = refmodel.op_from_bsf(vals, n)
+    syn = rc.syndrome(c)
+    for r, loc in enumerate(code.stabilizer_coordinates):
+        if code.stabilizer_type(loc) == 'vertex' and \
+                syn[r] != int(syndrome[r]) % 2:
+            return 'vertex syndrome not reproduced'
+    return None
 
 
 # ---------------------------------------------------------------------------
@@ -175,7 +207,8 @@ def gen_history(seed):
         else:
             ops.append({'op': 'gc'})
     return {'property': PROP, 'kind': 'history', 'seed': seed, 'cfg': cfg,
-            'noise': noise, 'decoders': decoders, 'ops': ops}
+            'noise': noise, 'decoders': decoders, 'ops': ops,
+            'syn_dtype': rng.choice(['native', 'native', 'int64'])}
 
 
 def gen_pairs(seed, cfg, noise, dec, syndromes=None):
@@ -189,14 +222,14 @@ def gen_pairs(seed, cfg, noise, dec, syndromes=None):
 _fresh_memo = {}
 
 
-def fresh_outcome(cfg, noise_spec, dec_spec, error):
+def fresh_outcome(cfg, noise_spec, dec_spec, error, dtype='native'):
     """What a newly constructed decoder (on newly constructed code and noise
     objects) returns for the syndrome of `error`.  Memoised per process."""
-    key = (canon(cfg), canon(noise_spec), canon(dec_spec), error)
+    key = (canon(cfg), canon(noise_spec), canon(dec_spec), error, dtype)
     if key not in _fresh_memo:
         code = make_code(cfg)
         noise = make_noise(noise_spec)
-        s = syndrome_of(code, error)
+        s = syndrome_of(code, error, dtype)
         try:
             dec = make_decoder(code, noise, dec_spec)
         except Exception as e:
@@ -208,7 +241,7 @@ def fresh_outcome(cfg, noise_spec, dec_spec, error):
     return _fresh_memo[key]
 
 
-def execute(plan, keep_events=False):
+def execute_here(plan, keep_events=False):
     sim = Sim(plan['seed'], keep_events=keep_events)
     violations = []
     states = set()
@@ -218,7 +251,7 @@ def execute(plan, keep_events=False):
 
     proc = sim.new_proc('pool')
     kernel.set_current(proc)
-    seams.install_entropy()
+    seams.install_entropy(plan['seed'])
     n_calls = 0
     try:
         seams.clear_caches()
@@ -240,6 +273,9 @@ def execute(plan, keep_events=False):
         else:
             ops = plan['ops']
         last = {}
+        returned = {}     # decoder index -> (array object, digest)
+        dtype = plan.get('syn_dtype', 'native')
+        rc = None
         for oi, op in enumerate(ops):
             kind = op['op']
             if kind == 'cache_clear':
@@ -255,11 +291,25 @@ def execute(plan, keep_events=False):
             if dec is None:
                 continue
             dspec = plan['decoders'][di]
-            s = syndrome_of(code, op['error'])
+            s = syndrome_of(code, op['error'], dtype)
             s_before = arr_digest(s)
             s_copy = np.array(s, copy=True)
-            got = outcome_of(lambda: dec.decode(s))
+            raw = {}
+
+            def call():
+                raw['r'] = dec.decode(s)
+                return raw['r']
+            got = outcome_of(call)
             n_calls += 1
+            # an array handed out by an earlier call must not change under
+            # the caller's feet when the decoder is used again
+            if di in returned and isinstance(returned[di][0], np.ndarray):
+                if arr_digest(returned[di][0]) != returned[di][1]:
+                    violate('returned_correction_overwritten_by_later_call',
+                            {'decoder': dspec['kind'], 'call': oi})
+                    break
+            if isinstance(raw.get('r'), np.ndarray):
+                returned[di] = (raw['r'], arr_digest(raw['r']))
             sim.log.add(proc.pid, 'decode', [di, digest(op['error']),
                                              digest(got)])
             if arr_digest(s) != s_before:
@@ -267,10 +317,23 @@ def execute(plan, keep_events=False):
                     'decoder': dspec['kind'], 'call': oi,
                     'changed_entries': int(np.sum(np.asarray(s) != s_copy))})
                 break
-            want = fresh_outcome(cfg, nz, dspec, op['error'])
+            want = fresh_outcome(cfg, nz, dspec, op['error'], dtype)
             if want[0] == 'construct_raised':
                 continue
-            if got[0] == 'raised' and want[0] == 'raised':
+            if dspec['kind'] in RANDOMISED:
+                if rc is None:
+                    rc = refmodel.RefCode(code)
+                vg = valid_randomised(code, rc, s_copy, got)
+                vw = valid_randomised(code, rc, s_copy, want)
+                if vg != vw:
+                    violate('history_dependent_validity', {
+                        'decoder': dspec['kind'], 'call': oi,
+                        'reused_decoder': vg, 'fresh_decoder': vw,
+                        'error': op['error'],
+                        'previous_error_on_this_decoder': last.get(di)})
+                    break
+                sim.probe('randomised_decoder_call')
+            elif got[0] == 'raised' and want[0] == 'raised':
                 sim.probe('both_raise_' + got[1])     # C05's business
             elif got != want:
                 prev_e = last.get(di)
@@ -311,6 +374,11 @@ def execute(plan, keep_events=False):
         'probes': sim.probes,
         'n_calls': n_calls,
     }
+
+
+def execute(plan, **kw):
+    """One plan = one simulated process image: run in a forked child."""
+    return runner.isolated(execute_here, plan, **kw)
 
 
 def summarize(o):
@@ -458,6 +526,8 @@ def signature(plan, v):
     sig = {'class': v['class'], 'decoder': d.get('decoder')}
     if v['class'] == 'history_dependent_outcome':
         sig['zero_syndrome'] = d.get('zero_syndrome')
+    if v['class'] == 'history_dependent_validity':
+        sig['reused'] = d.get('reused_decoder')
     return sig
 
 
